@@ -9,6 +9,7 @@ arithmetic modes.
 import Sds.Proofs.Bits
 import Sds.Proofs.Tables
 import Sds.Proofs.Round
+import Sds.Proofs.BitsMore
 
 namespace Sds.C17
 open Sds Outcome
@@ -119,8 +120,93 @@ theorem F12_counterexample :
     (U64 - 8 + 7 < U64 ∧ bytesToWordsOld .checked (U64 - 8) = fault (.panic .overflow)) :=
   ⟨bitsToWordsOld_counterexample, bytesToWordsOld_counterexample⟩
 
+/-! ### bit length, bit reversal, bit counts, in-word select (Proofs/BitsMore) -/
+
+/-- `bit_len`: for every word the result is in 1..=64, it is enough bits to write the value, and for a
+non-zero value it is the least such number (the top bit of that width is needed) -/
+theorem bit_len_exact (n : Word) :
+    1 ≤ bitLen n ∧ bitLen n ≤ 64 ∧ n.toNat < 2 ^ bitLen n ∧ (n ≠ 0 → 2 ^ (bitLen n - 1) ≤ n.toNat) :=
+  bitLen_spec n
+
+/-- `bit_len(0) = 1`, as documented -/
+theorem bit_len_zero : bitLen (0 : Word) = 1 := bitLen_zero
+
+/-- `reverse_low`: for every word and every `bits` in 1..=64, bit `i` of the result is bit `bits-1-i` of
+the argument for `i < bits`, and clear for `i ≥ bits` -/
+theorem reverse_low_exact (n : Word) (bits i : Nat) (h1 : 1 ≤ bits) (h2 : bits ≤ 64) :
+    (reverseLow n bits).getLsbD i = (decide (i < bits) && n.getLsbD (bits - 1 - i)) :=
+  reverseLow_getLsbD n bits i h1 h2
+
+/-- trailing zeros: for a non-zero word, the position of the lowest set bit; 64 for the zero word -/
+theorem ctz_exact (w : Word) (h : w ≠ 0) :
+    ctz w < 64 ∧ w.getLsbD (ctz w) = true ∧ ∀ j, j < ctz w → w.getLsbD j = false := ctz_spec w h
+theorem ctz_of_zero : ctz (0 : Word) = 64 := ctz_zero
+
+/-- leading zeros: for a non-zero word, `63 - clz` is the position of the highest set bit; 64 for zero -/
+theorem clz_exact (w : Word) (h : w ≠ 0) :
+    clz w < 64 ∧ w.getLsbD (63 - clz w) = true ∧ ∀ j, 63 - clz w < j → j < 64 → w.getLsbD j = false :=
+  clz_spec w h
+theorem clz_of_zero : clz (0 : Word) = 64 := clz_zero
+
+/-- population count: at most 64, and the masked counts used by rank are the counts of the bits
+below / at-or-above a position -/
+theorem popcount_bound (w : Word) : popcount w ≤ 64 := popcount_le w
+theorem popcount_below (w : Word) (o : Nat) (ho : o ≤ 64) :
+    popcount (w &&& lowSet o) = ((bitsOfWord w).take o).count true := popcount_and_lowSet w o ho
+theorem popcount_from (w : Word) (o : Nat) (ho : o ≤ 64) :
+    popcount (w &&& ~~~ lowSet o) = ((bitsOfWord w).drop o).count true := popcount_and_not_lowSet w o ho
+
+/-- the specification `selectBits` used below means what it should: the answer `p` is a position below 64
+whose bit is set and that has exactly `r` set bits below it -/
+theorem select_spec_meaning (w : Word) (r p : Nat) :
+    selectBits (bitsOfWord w) r = some p ↔
+      (p < 64 ∧ w.getLsbD p = true ∧ popcount (w &&& lowSet p) = r) := by
+  rw [selectBits_word_iff]
+  constructor
+  · rintro ⟨h1, h2, h3⟩
+    refine ⟨h1, h2, ?_⟩
+    rw [popcount_and_lowSet w p (by omega), take_bitsOfWord_count w p (by omega)]; exact h3
+  · rintro ⟨h1, h2, h3⟩
+    refine ⟨h1, h2, ?_⟩
+    rw [popcount_and_lowSet w p (by omega), take_bitsOfWord_count w p (by omega)] at h3; exact h3
+
+/-- in-word select, BMI2 (`pdep` + `tzcnt`) path: for every word and every rank below the population
+count the result is the position of the set bit of that rank -/
+theorem select_pdep_exact (n : Word) (r : Nat) (h : r < popcount n) :
+    selectBits (bitsOfWord n) r = some (selectPdep n r) := selectPdep_spec n r h
+
+/-- in-word select, portable (SWAR + tables) path, in BOTH arithmetic modes: for every word and every rank
+below the population count the function returns normally — no overflow panic of the unchecked `+`, no
+over-long shift, no table index out of range of `_PS_OVERFLOW` / `_SELECT_IN_BYTE` — and the result is
+the position of the set bit of that rank -/
+theorem select_portable_exact (m : Mode) (n : Word) (r : Nat) (h : r < popcount n) :
+    ∃ p, selectPortable m n r = ok p ∧ selectBits (bitsOfWord n) r = some p :=
+  selectPortable_spec m n r h
+
+/-- hence the two paths return the same position: building with or without `target-cpu=native`
+cannot change a result -/
+theorem select_paths_agree (m : Mode) (n : Word) (r : Nat) (h : r < popcount n) :
+    selectPortable m n r = ok (selectPdep n r) := by
+  obtain ⟨p, h1, h2⟩ := selectPortable_spec m n r h
+  rw [selectPdep_spec n r h] at h2
+  rw [h1, Option.some.inj h2]
+
+/-- and in the positional reading: the returned position is below 64, its bit is set, and exactly `r`
+set bits lie below it -/
+theorem select_exact (m : Mode) (n : Word) (r : Nat) (h : r < popcount n) :
+    ∃ p, selectPortable m n r = ok p ∧ selectPdep n r = p ∧
+      p < 64 ∧ n.getLsbD p = true ∧ popcount (n &&& lowSet p) = r := by
+  refine ⟨selectPdep n r, select_paths_agree m n r h, rfl, ?_⟩
+  exact (select_spec_meaning n r _).1 (selectPdep_spec n r h)
+
 /-- non-vacuity: the hypotheses of the read/write theorems are met by a concrete straddling write -/
 example : (1 ≤ 13 ∧ 13 ≤ 64 ∧ (60 + 13 - 1) / 64 < (#[0, 0] : Array Word).size) := by decide
 example : readInt (writeInt #[0xFFFFFFFFFFFFFFFF#64, 0#64] 60 0x1ABC#64 13) 60 13 = 0x1ABC#64 := by decide
+/-- non-vacuity of the select theorems: a word with 5 set bits, rank 3 -/
+example : (3 < popcount 0xF1#64) := by decide
+example : ∃ p, selectPortable .checked 0xF1#64 3 = ok p ∧ selectPdep 0xF1#64 3 = p ∧
+    p < 64 ∧ (0xF1#64 : Word).getLsbD p = true ∧ popcount (0xF1#64 &&& lowSet p) = 3 :=
+  select_exact .checked 0xF1#64 3 (by decide)
+example : (1 ≤ 4 ∧ 4 ≤ 64) ∧ (0x1ABC#64 : Word) ≠ 0 := by decide
 
 end Sds.C17
